@@ -26,7 +26,7 @@ LEVEL_TEXT = ("Exploration: hundreds (quick) to thousands (thorough) of generate
               "and per shift against the invariant(s) the property statement attaches to its configuration.")
 FLOORS = {"quick": 150, "thorough": 1500}
 SHARDS = {"quick": 4, "thorough": 4}
-BUDGET = {"quick": 440, "thorough": 6400}
+BUDGET = {"quick": 1200, "thorough": 9600}
 
 MW = 0.018016
 TOL_INV = 1e-9
@@ -397,6 +397,8 @@ def check_case_inproc(case, ctx):
         classes.append("concentrations_changed")
     if obs["added"]:
         classes.append("mcd_added_negligible")
+    for x in case.get("excluded", []):
+        classes.append("excluded:" + x)
     if "Unequal cell-lengths" in obs["warn"]:
         classes.append("warned_unequal_lengths")
     return {"nontrivial": nt, "classes": classes}
